@@ -16,7 +16,12 @@ REGISTRATION = {
             "are confined under the models directory at fixed depth, print/parse round trips, cross-parser agreement, "
             "case-fold ⇒ same manifest path in the new cache, the two digest validators accept the same language, "
             "DiskCache.Resolve / the registry client's extended names resolve inside <dir>/manifests at depth 4 "
-            "(C13_rejected_or_confined bundles every entry point). Character classes and length limits are regenerated "
+            "(C13_rejected_or_confined bundles every entry point). Histories: a sequence of Resolve/Link/Unlink on one "
+            "DiskCache interleaved with foreign writers of the shared manifests directory is modelled as a fold over "
+            "the DIRECTORY CONTENTS only (no state in the cache between calls: runH_append); cache operations never "
+            "create a case twin (runH_noTwins) and every spelling resolves to the same file whatever is on disk "
+            "(manifestRel_fold); tied by exact L1 on the path every call resolves to + the final listing, and by L2 "
+            "on the real directory after every call. Character classes and length limits are regenerated "
             "from the real isValidPart of both packages (all 1- and 2-byte strings) on every run and re-proved equal "
             "to the model's by `decide`. Model = code is checked exactly on every string of length ≤ 3 (quick) / ≤ 4 "
             "(thorough) over a 16-symbol class alphabet plus structured random names, relative paths and digests, in "
@@ -71,6 +76,12 @@ THEOREMS = [
     "OllamaVerif.C13.cutTag_literal",
     "OllamaVerif.C13.parseNLoop_fuel",
     "OllamaVerif.C13.manifest_want_ascii",
+    "OllamaVerif.C13.manifestPath_eq_rel",
+    "OllamaVerif.C13.runH_append",
+    "OllamaVerif.C13.equalFold_of_lowerEq",
+    "OllamaVerif.C13.stepH_cache_noTwins",
+    "OllamaVerif.C13.runH_noTwins",
+    "OllamaVerif.C13.manifestRel_fold",
     "OllamaVerif.Tie.C13.first_sets_match",
     "OllamaVerif.Tie.C13.rest_sets_match",
     "OllamaVerif.Tie.C13.length_limits_match",
@@ -156,7 +167,7 @@ def run(ctx):
         if not os.path.exists(os.path.join(core.OVERLAY, list(overlay.values())[0])):
             continue
         n, exh = sizes[label][1 if ctx.thorough else 0]
-        env = {"VERIF_N": n, "VERIF_EXH": exh, "VERIF_EXH_PATH": 3 if not ctx.thorough else 4,
+        env = {"VERIF_N": n, "VERIF_EXH": exh, "VERIF_HIST": 4000 if ctx.thorough else 300, "VERIF_EXH_PATH": 3 if not ctx.thorough else 4,
                "VERIF_CORPUS": os.path.join(corpus, label + ".txt")}
         if ctx.replay:
             toks = open(ctx.replay_line_file()).read().split()
@@ -183,7 +194,9 @@ def run(ctx):
         level="proof",
         rule="every string of length ≤ 3 (quick) / ≤ 4, ≤ 5 for the two name parsers (thorough) over a 16-symbol alphabet of class representatives "
              "(/ \\ : @ . - _ NUL 0x80 0xFF A a b 0 ~ space) as a name (both parsers, legacy ModelPath, extended name), "
-             "as a name relative path and as a digest; parts on and around every length limit with an offending byte "
+             "as a name relative path and as a digest; 300 (quick) / 4000 (thorough) random histories of 3-12 operations "
+             "(Resolve/Link/Unlink under random case spellings, foreign create/remove of manifest files incl. case "
+             "twins and non-ASCII spellings) on one DiskCache; parts on and around every length limit with an offending byte "
              "at start/middle/end; seeded structured names (well-formed / 1–3 mutations / with digest / many "
              "separators / raw bytes); distinct = distinct oracle command lines",
         explanation="Lean theorems over the byte-level model of both parsers and the path derivation; the model is "
@@ -196,7 +209,7 @@ def run(ctx):
 OPS_OF = {
     "model": {"mname", "mpath", "vpartM"},
     "names": {"nname", "vpartN"},
-    "blob": {"digest", "getfile", "n2p", "mfpath", "snd", "resolve", "fold"},
+    "blob": {"digest", "getfile", "n2p", "mfpath", "snd", "resolve", "fold", "hist"},
     "server": {"mp", "blobs", "clean", "join"},
     "client": {"ext", "split"},
 }
